@@ -231,7 +231,11 @@ def run_config(cfg, res):
         deleted_defaults = {}
         for life in range(cfg["restarts"] + 1):
             if life > 0:
-                w.restart()
+                try:
+                    w.restart()
+                except RuntimeError as e:
+                    wk.viol(f"{wk.sigbase()}/server-does-not-start-again", f"[{wk.shape()} life {life}] the server did not come up again on the data it had written itself: {str(e)[-500:]}")
+                    return
                 res.count("restarts")
             d = wk.discover(start, life)
             res.evaluations += 1
@@ -303,6 +307,24 @@ def run_config(cfg, res):
                         if W.World.success(s.status):
                             created.append(nt)
                             res.count("collections_recreated_with_another_type")
+            if "calendars" in d["homes"] and life == 0:
+                # a collection made by plain MKCOL that holds events is found as a calendar (the type is taken from its
+                # members); a note dropped next to them - sorting before every event - does not change what it is
+                nt = d["homes"]["calendars"].rstrip("/") + "/untyped/"
+                s, r = wk.req("MKCOL", nt)
+                if W.World.success(s.status):
+                    tok = w.new_token()
+                    wk.req("PUT", nt + "ev-%s.ics" % tok, [("Content-Type", "text/calendar")], gen.ical(rng, "c18-untyped-" + tok, tok, rich=False))
+                    dg = wk.discover(start, life)
+                    if dg is not None and nt in dg["calendars"]:
+                        res.count("untyped_collections_found_as_calendar")
+                        wk.req("PUT", nt + "0-readme.txt", [("Content-Type", "text/plain")], b"notes about this calendar\n")
+                        dg2 = wk.discover(start, life)
+                        if dg2 is not None and nt not in dg2["calendars"]:
+                            wk.viol(f"{wk.sigbase()}/untyped-collection-with-events/no-longer-a-calendar-after-a-text-file-was-added", f"[{wk.shape()} life {life}] {nt} (plain MKCOL, one event) was reached as a calendar; "
+                                    "after PUT 0-readme.txt it is not")
+                        elif dg2 is not None:
+                            created.append(nt)
             d2 = wk.discover(start, life)
             if d2 is None:
                 return
@@ -331,6 +353,21 @@ def run_config(cfg, res):
                     return
             snap = wk.snapshot(d2)
             res.count("user_writes", sum(len(v["members"]) for v in snap.values()))
+            if cfg.get("delete_home") and life == 0 and cfg["restarts"] >= 1 and mode == "defaults" and fe_kind == "aio" and "addressbooks" in d2["homes"] and d2["homes"].get("addressbooks") != d2["homes"].get("calendars"):
+                # the last thing the user does before the server is restarted: removing the whole address book home.
+                # The command-line server makes the principal's collections at every start with --defaults: it has to
+                # come up again, with a home and an address book (what was in the old home is gone with it)
+                hb = d2["homes"]["addressbooks"]
+                inside = [t for t in d2["addressbooks"] if t.startswith(hb) and t.rstrip("/").rsplit("/", 1)[-1] == "addressbook"]
+                sdel, _ = wk.req("DELETE", hb)
+                if W.World.success(sdel.status):
+                    res.count("home_sets_deleted_by_user")
+                    created[:] = [t for t in created if not t.startswith(hb)]
+                    for t in list(snap):
+                        if t.startswith(hb):
+                            del snap[t]
+                    for t in inside:
+                        deleted_defaults[t] = "addressbooks"
         if res.evaluations <= cfg["restarts"] + 1:
             res.sample({"config": cfg, "requests": wk.log[:14]})
     except Exception:
@@ -355,6 +392,7 @@ def all_configs(seed):
     for fe, mode, prefix, principal, restarts in itertools.product(FES, MODES, PREFIXES, PRINCIPALS, RESTARTS):
         out.append({"fe": fe, "mode": mode, "prefix": prefix, "principal": principal, "restarts": restarts, "seed": seed * 1000 + len(out),
                     "delete_default": [None, "calendars", "addressbooks"][len(out) % 3] if restarts >= 1 else None, "bare_user_col": len(out) % 4 == 1})
+        out[-1]["delete_home"] = restarts >= 1 and not out[-1]["delete_default"] and len(out) % 2 == 0
     return out
 
 
@@ -369,7 +407,7 @@ def check(tier, seed, t0):
                 for k in range(4):
                     picked.append({"fe": fe, "mode": mode, "prefix": PREFIXES[(k + len(picked)) % 3], "principal": PRINCIPALS[k] if k != 1 or mode != "autocreate" else PRINCIPALS[4 + (fe == "aio")],
                                    "restarts": [1, 0, 3, 1][k], "seed": seed * 1000 + len(picked),
-                                   "delete_default": [("addressbooks" if mode != "autocreate" else None), None, "calendars", None][k], "bare_user_col": k == 1})
+                                   "delete_default": [("addressbooks" if mode != "autocreate" else None), None, "calendars", None][k], "bare_user_col": k == 1, "delete_home": k in (2, 3)})
         cfgs = picked
     n = 16
     shards = [{"configs": cfgs[i::n]} for i in range(n) if cfgs[i::n]]
@@ -381,6 +419,8 @@ def check(tier, seed, t0):
               ("members compared across restarts", c.get("members_compared", 0), 40 if tier == "quick" else 500),
               ("configurations with user data in a bare repository below the calendar home", c.get("configs_with_a_bare_user_collection", 0), 4 if tier == "quick" else 40),
               ("walks over a deployment whose default calendar is a bare repository with an event", c.get("bare_default_calendar_checks", 0), 3 if tier == "quick" else 30),
+              ("address book homes deleted by the user before a --defaults restart", c.get("home_sets_deleted_by_user", 0), 2 if tier == "quick" else 10),
+              ("untyped collections with events found as calendars", c.get("untyped_collections_found_as_calendar", 0), 10 if tier == "quick" else 100),
               ("collections deleted and re-created with another type at the same URL", c.get("collections_recreated_with_another_type", 0), 10 if tier == "quick" else 100),
               ("default collections deleted by the user and re-created by a --defaults restart", c.get("deleted_default_recreated", 0), 2 if tier == "quick" else 8)]
     return common.finish(PROP, tier, seed, "exploration", merged, failures, RULE + f"; {len(cfgs)} configurations this run", t0, guards=guards,
